@@ -479,7 +479,7 @@ func runC18(c *core.Ctx) {
 	if done < maxN {
 		c.Cap(fmt.Sprintf("A1 completed only to %d nodes", done))
 	}
-	c.R.Bound = fmt.Sprintf("A1 value trees <= %d nodes; A2 strings <= 3 runes over %d runes; A3 numbers; A4 24 map keys that read like other tokens; A5 every control character on its own", done, len(c18Runes))
+	c.R.Bound = fmt.Sprintf("A1 value trees <= %d nodes; A2 strings <= 3 runes over %d runes; A3 numbers; A4 24 map keys that read like other tokens; A5 every control character on its own; A6 every symbol / variable name of <= 3 characters over 5 and the integers -12..12 in 3 placements", done, len(c18Runes))
 
 	// A2 strings
 	var strs []string
@@ -576,6 +576,44 @@ func runC18(c *core.Ctx) {
 				c.Nontrivial()
 				check18(c, s, indent, true, false, "top", "invalid-utf8")
 				check18(c, []interface{}{s}, indent, true, false, "list-element", "invalid-utf8")
+			}
+		}
+		// A6 short tokens: every enum symbol and variable name of <= 3 characters over {A, z, _, 0, 7} (no leading digit)
+		// and every integer -12..12, as the whole text (the end of the input follows the token), as a list element and
+		// as a map value
+		var names []string
+		var grow func(pre string)
+		grow = func(pre string) {
+			if pre != "" {
+				names = append(names, pre)
+			}
+			if len(pre) == 3 {
+				return
+			}
+			for _, r := range "Az_07" {
+				if pre == "" && (r == '0' || r == '7') {
+					continue
+				}
+				grow(pre + string(r))
+			}
+		}
+		grow("")
+		var shorts []interface{}
+		for _, n := range names {
+			shorts = append(shorts, ggql.Symbol(n), ggql.Var(n))
+		}
+		for i := -12; i <= 12; i++ {
+			shorts = append(shorts, int64(i))
+		}
+		shorts = append(shorts, true, false, nil)
+		for _, sv := range shorts {
+			for _, indent := range []int{-1, 0, 2} {
+				c.R.Distinct++
+				c.Nontrivial()
+				check18(c, sv, indent, true, true, "top", "short-token")
+				check18(c, []interface{}{sv}, indent, true, true, "list-element", "short-token")
+				check18(c, []interface{}{sv, sv}, indent, true, true, "list-element", "short-token")
+				check18(c, map[string]interface{}{"a": sv}, indent, true, true, "map-value", "short-token")
 			}
 		}
 		// A3 numbers
